@@ -171,16 +171,21 @@ async fn held_writer_case(rep: &mut Report, args: &Args, case_seed: u64) {
         let ids: BTreeSet<u128> = t.events.iter().map(|e| e.event_id).collect();
         let mut during = deny.clone();
         during.extend(ids.iter().copied());
+        let hits0 = hooks::hits("write.after_event");
         hooks::arm("write.after_event", Some(0));
         let dbc = db.clone();
         let st = to_store_txn(&t).unwrap();
         let handle = tokio::spawn(async move { dbc.append_events(st).await.map(|_| ()).map_err(|e| e.to_string()) });
-        let hits0 = hooks::hits("write.after_event");
         for k in 0..t.events.len() {
             // wait for the (k+1)-th arrival of this transaction at the pause point
             let t0 = std::time::Instant::now();
-            while hooks::hits("write.after_event") < hits0 + k as u64 + 1 && t0.elapsed() < Duration::from_secs(10) {
+            while hooks::hits("write.after_event") < hits0 + k as u64 + 1 && t0.elapsed() < Duration::from_secs(30) && !handle.is_finished() {
                 tokio::time::sleep(Duration::from_micros(200)).await;
+            }
+            if handle.is_finished() {
+                // refused before anything was written (e.g. larger than a segment)
+                hooks::disarm_all();
+                break;
             }
             if hooks::hits("write.after_event") < hits0 + k as u64 + 1 || !hooks::wait_held("write.after_event", Duration::from_secs(10)) {
                 rep.inconclusive("writer never reached the pause point write.after_event");
